@@ -10,3 +10,4 @@ pub mod bmp;
 pub mod rib;
 pub mod bgp;
 pub mod mrt;
+pub mod frim;
